@@ -12,13 +12,13 @@ import shlex
 from contracts.bounded_cmd import Bounded
 
 STEP_ARGS = ['out.txt', 'a b', '$HOME', 'x$y', "q'r", 'semi;colon', '', 'back\\slash', '*', '#h']
-STEP_ENV = {'K': 'v w', 'D': '$x'}
+STEP_ENV = {'K': 'v w', 'D': '$x', 'E': ''}        # E: set, but empty (the parent environment has another value)
 CHILD_ARGS = ['a$b', 'c d', "e'f"]
 BUILD_BFG = """
 project('n')
 global_options(['-DG=1', '-DGS="g h"'], lang='c')
 global_link_options(['-Wl,--as-needed'])
-lib = static_library('foo', files=['a.c'])
+lib = static_library('foo', files=['a.c', 'sub dir/my src&co.c'])
 plain = executable('plain', files=['main.c'])
 withlib = executable('withlib', files=['main2.c'], libs=[lib], compile_options=['-DT=$5'], link_options=['-Wl,-O1'])
 out = build_step('out.txt', cmd=[executable('spy.sh')] + %(step)r, environment=%(env)r)
@@ -28,7 +28,7 @@ test([executable('single.sh')], driver=drv)
 default(plain, withlib, out)
 """ % {'step': STEP_ARGS, 'env': STEP_ENV, 'child': CHILD_ARGS}
 SPY = """#!/bin/sh
-{ printf '%%s\\0' "%(name)s" "$@"; printf '\\036'; printf 'K=%%s\\0D=%%s\\0' "$K" "$D"; printf '\\035'; } >> "%(log)s"
+{ printf '%%s\\0' "%(name)s" "$@"; printf '\\036'; printf 'K=%%s\\0D=%%s\\0E=%%s\\0' "${K-UNSET}" "${D-UNSET}" "${E-UNSET}"; printf '\\035'; } >> "%(log)s"
 %(then)s
 """
 
@@ -68,6 +68,7 @@ class ProcessArguments(Bounded):
                     os.chmod(fp, mode)
             w(src + '/build.bfg', BUILD_BFG)
             w(src + '/a.c', 'int a(void) { return 0; }\n')
+            w(src + '/sub dir/my src&co.c', 'int b(void) { return 0; }\n')
             w(src + '/main.c', 'int main(void) { return 0; }\n')
             w(src + '/main2.c', 'int a(void);\nint main(void) { return a(); }\n')
             w(src + '/spy.sh', SPY % {'name': 'spy.sh', 'log': log, 'then': 'touch "$1"'}, 0o755)
@@ -79,7 +80,7 @@ class ProcessArguments(Bounded):
                 w(lp, "#!/bin/sh\nPYTHONPATH=%s exec /venv/bin/python -c 'import sys; sys.argv[0] = \"%s\"; "
                       "from %s import main; sys.exit(main())' \"$@\"\n" % (REPO, lp, mod), 0o755)
             w(top + '/bin/ninja', '#!/bin/sh\necho 1.10.1\n', 0o755)
-            env = dict(os.environ, PATH=top + '/bin:/venv/bin:' + os.environ['PATH'], CC=top + '/bin/spycc', HOME='/home/spy')
+            env = dict(os.environ, PATH=top + '/bin:/venv/bin:' + os.environ['PATH'], CC=top + '/bin/spycc', HOME='/home/spy', E='inherited-from-parent')
             for k in ('MAKEFLAGS', 'CFLAGS', 'CPPFLAGS', 'LDFLAGS', 'LDLIBS', 'K', 'D'):
                 env.pop(k, None)
 
@@ -140,8 +141,12 @@ class ProcessArguments(Bounded):
             cc = [r_[1] for r_ in recs if r_[0] == 'cc']
             compiles = [a for a in cc if '-c' in a]
             links = [a for a in cc if '-c' not in a]
-            if len(compiles) != 3 or len(links) != 2:
+            if len(compiles) != 4 or len(links) != 2:
                 return self.fail(case, raw, 'every_step_runs_once', compiles=compiles, links=links)
+            sources = sorted(x for a in compiles for x in a if x.endswith('.c') and not x.startswith('-'))
+            want_sources = sorted(src + '/' + f for f in ('a.c', 'main.c', 'main2.c', 'sub dir/my src&co.c'))
+            if sources != want_sources:
+                return self.fail(case, raw, 'compile_receives_its_source_as_one_argument', got=sources, expected=want_sources)
             for a in compiles:
                 per_target = ['-DT=$5'] if any(x.endswith('main2.c') for x in a) else []
                 for opt in ['-DG=1', '-DGS="g h"'] + per_target:
